@@ -884,6 +884,32 @@ pub fn gen_message(r: &mut Rng, sw: &Swarm) -> (Message, &'static str) {
         }),
         payload,
     };
+    let mut m = m;
+    // one message in 50 with a raw payload: header bytes that equal each other — the message
+    // counter, both length bytes, or all three, are made equal to the header type byte (the length
+    // by sizing the payload), or the counter equals the low length byte
+    if matches!(kind, 1 | 2 | 3) && r.chance(1, 50) {
+        let htyp = m.header.header_type_byte() as usize;
+        let shape = r.below(4);
+        if shape != 1 {
+            m.header.message_counter = htyp as u8;
+        }
+        if shape != 0 {
+            let want_total = if shape == 3 { (htyp << 8) | (m.header.message_counter as usize) } else { htyp * 257 };
+            let fixed = hdr_len + if kind == 3 { 1 } else { 4 };
+            if want_total >= fixed && want_total <= 65_535 {
+                let n = want_total - fixed;
+                match &mut m.payload {
+                    PayloadContent::NonVerbose(_, p) | PayloadContent::ControlMsg(_, p) => {
+                        let b = payload_bytes(r, sw, n);
+                        *p = b;
+                    }
+                    _ => {}
+                }
+                m.header.payload_length = (want_total - hdr_len) as u16;
+            }
+        }
+    }
     (m, KIND_NAMES[kind])
 }
 
